@@ -28,6 +28,7 @@ type scope struct {
 	depOwner string
 	dseq     uint64
 	hasDep   bool
+	gseq     uint32        // when non-zero: the message names a group (or an order/bid/lease of it)
 	onlyBid  *mtypes.BidID // CreateBid: nothing but this bid and its deposit account
 	provider string        // provider store record of this owner
 	attOwner string        // audit record (owner, auditor)
@@ -48,22 +49,22 @@ func assignedParty(msg sdk.Msg) (string, scope) {
 	case *dtypes.MsgCloseDeployment:
 		return m.ID.Owner, scope{depOwner: m.ID.Owner, dseq: m.ID.DSeq, hasDep: true}
 	case *dtypes.MsgCloseGroup:
-		return m.ID.Owner, scope{depOwner: m.ID.Owner, dseq: m.ID.DSeq, hasDep: true}
+		return m.ID.Owner, scope{depOwner: m.ID.Owner, dseq: m.ID.DSeq, hasDep: true, gseq: m.ID.GSeq}
 	case *dtypes.MsgPauseGroup:
-		return m.ID.Owner, scope{depOwner: m.ID.Owner, dseq: m.ID.DSeq, hasDep: true}
+		return m.ID.Owner, scope{depOwner: m.ID.Owner, dseq: m.ID.DSeq, hasDep: true, gseq: m.ID.GSeq}
 	case *dtypes.MsgStartGroup:
-		return m.ID.Owner, scope{depOwner: m.ID.Owner, dseq: m.ID.DSeq, hasDep: true}
+		return m.ID.Owner, scope{depOwner: m.ID.Owner, dseq: m.ID.DSeq, hasDep: true, gseq: m.ID.GSeq}
 	case *mtypes.MsgCreateLease:
-		return m.BidID.Owner, scope{depOwner: m.BidID.Owner, dseq: m.BidID.DSeq, hasDep: true}
+		return m.BidID.Owner, scope{depOwner: m.BidID.Owner, dseq: m.BidID.DSeq, hasDep: true, gseq: m.BidID.GSeq}
 	case *mtypes.MsgCloseLease:
-		return m.LeaseID.Owner, scope{depOwner: m.LeaseID.Owner, dseq: m.LeaseID.DSeq, hasDep: true}
+		return m.LeaseID.Owner, scope{depOwner: m.LeaseID.Owner, dseq: m.LeaseID.DSeq, hasDep: true, gseq: m.LeaseID.GSeq}
 	case *mtypes.MsgCreateBid:
 		b := mtypes.MakeBidID(m.Order, mustAddr(m.Provider))
 		return m.Provider, scope{onlyBid: &b}
 	case *mtypes.MsgCloseBid:
-		return m.BidID.Provider, scope{depOwner: m.BidID.Owner, dseq: m.BidID.DSeq, hasDep: true}
+		return m.BidID.Provider, scope{depOwner: m.BidID.Owner, dseq: m.BidID.DSeq, hasDep: true, gseq: m.BidID.GSeq}
 	case *mtypes.MsgWithdrawLease:
-		return m.LeaseID.Provider, scope{depOwner: m.LeaseID.Owner, dseq: m.LeaseID.DSeq, hasDep: true}
+		return m.LeaseID.Provider, scope{depOwner: m.LeaseID.Owner, dseq: m.LeaseID.DSeq, hasDep: true, gseq: m.LeaseID.GSeq}
 	case *ptypes.MsgCreateProvider:
 		return m.Owner, scope{provider: m.Owner}
 	case *ptypes.MsgUpdateProvider:
@@ -189,6 +190,40 @@ func (cs *checkerSet) c06Tx(c *TxCtx) *core.Violation {
 		}
 		if ok, what := inScope(ch, sc); !ok {
 			return r.Flag("C06/touches-foreign-record", "%s changed a record it does not name: %s", describeOp(c.W, c.Op), what)
+		}
+	}
+	// a message that names one group (or an order, bid or lease of it) leaves the other groups of the
+	// deployment alone - unless the transaction ended the whole deployment (escrow exhausted)
+	if sc.hasDep && sc.gseq != 0 {
+		dk := fmt.Sprintf("%s/%d", sc.depOwner, sc.dseq)
+		depEnded := c.Before.Deployments[dk].State != c.After.Deployments[dk].State
+		if !depEnded {
+			for _, ch := range DiffRaw(c.Before, c.After) {
+				var g uint32
+				var what string
+				switch ch.Store {
+				case "market":
+					if _, _, rest, ok := parseDepKey(ch.Key, 2); ok && len(rest) >= 4 {
+						g, what = binary.BigEndian.Uint32(rest), fmt.Sprintf("market record (type %d)", ch.Key[0])
+					}
+				case "deployment":
+					if ch.Key[0] == 0x02 {
+						if _, _, rest, ok := parseDepKey(ch.Key, 1); ok && len(rest) >= 4 {
+							g, what = binary.BigEndian.Uint32(rest), "group record"
+						}
+					}
+				case "escrow":
+					parts := strings.Split(string(ch.Key[1:]), "/")
+					if len(parts) >= 5 && parts[1] == "bid" {
+						if v, err := strconv.ParseUint(parts[4], 10, 32); err == nil {
+							g, what = uint32(v), "bid deposit account"
+						}
+					}
+				}
+				if g != 0 && g != sc.gseq {
+					return r.Flag("C06/touches-other-group", "%s names group %d but changed a %s of group %d of the same (still active) deployment", describeOp(c.W, c.Op), sc.gseq, what, g)
+				}
+			}
 		}
 	}
 	// ... and reduces only its signer's balance
